@@ -53,7 +53,15 @@ def _stored_target(call):
     if isinstance(p, ast.Await):
         p = getattr(p, "_parent", None)
     if isinstance(p, ast.Assign) and len(p.targets) == 1:
-        return norm(p.targets[0])
+        tgt = p.targets[0]
+        if isinstance(tgt, ast.Name):
+            # held in a local first: the slot is where that local is stored afterwards (`slot[k] = local`)
+            from ..repo import enclosing_func
+            fn = enclosing_func(call)
+            for m in (body_walk(fn) if fn is not None else ()):
+                if isinstance(m, ast.Assign) and isinstance(m.value, ast.Name) and m.value.id == tgt.id and len(m.targets) == 1 and not isinstance(m.targets[0], ast.Name):
+                    return norm(m.targets[0])
+        return norm(tgt)
     return None
 
 
